@@ -9,7 +9,7 @@ Proof.
   induction l as [|a l IH]; simpl; intros H x Hx; [contradiction|].
   destruct a as [a|k]; [|discriminate].
   destruct (all_o l) as [b|k] eqn:E; [|discriminate].
-  inversion H as [H1]. apply andb_true_iff in H1. destruct H1 as [Ha Hb]. subst.
+  injection H as H1. apply andb_true_iff in H1. destruct H1 as [Ha Hb]. subst.
   destruct Hx as [<-|Hx]; [reflexivity|]. apply IH; auto.
 Qed.
 
@@ -18,7 +18,7 @@ Proof.
   induction l as [|a l IH]; simpl; intros H; [discriminate|].
   destruct a as [a|k]; [|discriminate].
   destruct (all_o l) as [b|k] eqn:E; [|discriminate].
-  inversion H as [H1]. apply andb_false_iff in H1. destruct H1 as [Ha|Hb]; subst.
+  injection H as H1. apply andb_false_iff in H1. destruct H1 as [Ha|Hb]; subst.
   - exists (Ok false). split; [left|]; reflexivity.
   - destruct (IH eq_refl) as [x [Hx Hf]]. exists x. split; [right|]; assumption.
 Qed.
@@ -28,7 +28,7 @@ Proof.
   induction l as [|a l IH]; simpl; intros H; [discriminate|].
   destruct a as [a|k]; [|discriminate].
   destruct (any_o l) as [b|k] eqn:E; [|discriminate].
-  inversion H as [H1]. apply orb_true_iff in H1. destruct H1 as [Ha|Hb]; subst.
+  injection H as H1. apply orb_true_iff in H1. destruct H1 as [Ha|Hb]; subst.
   - exists (Ok true). split; [left|]; reflexivity.
   - destruct (IH eq_refl) as [x [Hx Hf]]. exists x. split; [right|]; assumption.
 Qed.
@@ -38,7 +38,7 @@ Proof.
   induction l as [|a l IH]; simpl; intros H x Hx; [contradiction|].
   destruct a as [a|k]; [|discriminate].
   destruct (any_o l) as [b|k] eqn:E; [|discriminate].
-  inversion H as [H1]. apply orb_false_iff in H1. destruct H1 as [Ha Hb]. subst.
+  injection H as H1. apply orb_false_iff in H1. destruct H1 as [Ha Hb]. subst.
   destruct Hx as [<-|Hx]; [reflexivity|]. apply IH; auto.
 Qed.
 
@@ -83,29 +83,31 @@ Proof.
     try (inversion V; subst; match goal with
                              | L : leaf_check _ _ = true |- _ => simpl in L; inversion H; congruence
                              end).
-  - (* SAll *) inversion V as [l0 j0 Hall| | | | | | | | |S0 j0 L]; subst; [|simpl in L; discriminate].
+  - (* SAll *) inversion V; subst; [|match goal with L : leaf_check _ _ = true |- _ => simpl in L; discriminate end].
     destruct (all_o_false _ H) as [x [Hx Hf]]. apply in_map_iff in Hx. destruct Hx as [s [Hs1 Hs2]].
-    subst x. exact (IH _ _ _ Hs1 (Hall s Hs2)).
-  - (* SAnyOf *) inversion V as [|l0 s j0 Hin Hv| | | | | | | |S0 j0 L]; subst; [|simpl in L; discriminate].
-    refine (IH _ _ _ _ Hv). apply (any_o_false _ H). apply in_map_iff. exists s. split; [reflexivity|assumption].
-  - (* SRef *) inversion V as [| |nm s j0 Ha Hv| | | | | | |S0 j0 L]; subst; [|simpl in L; discriminate].
-    rewrite Ha in H. exact (IH _ _ _ H Hv).
-  - (* SObj *) inversion V as [| | |ps ap o Hall|ps ap j0 Hno| | | | |S0 j0 L]; subst;
-      [| destruct j; simpl in Hno; try discriminate; discriminate | simpl in L; discriminate].
+    subst x. eapply IH; [exact Hf|]. auto.
+  - (* SAnyOf *) inversion V; subst; [|match goal with L : leaf_check _ _ = true |- _ => simpl in L; discriminate end].
+    eapply IH; [|eassumption]. apply (any_o_false _ H). apply in_map_iff. eexists. split; [reflexivity|eassumption].
+  - (* SRef *) inversion V; subst; [|match goal with L : leaf_check _ _ = true |- _ => simpl in L; discriminate end].
+    match goal with Ha : assoc _ _ = Some _ |- _ => rewrite Ha in H end. eapply IH; eassumption.
+  - (* SObj *) inversion V; subst;
+      [| match goal with Hno : is_obj _ = false |- _ => destruct j; simpl in Hno; discriminate end
+       | match goal with L : leaf_check _ _ = true |- _ => simpl in L; discriminate end].
     destruct (all_o_false _ H) as [x [Hx Hf]]. apply in_map_iff in Hx. destruct Hx as [[k v] [Hs1 Hs2]].
     simpl in Hs1. destruct (entry_schema props addl k) as [s|] eqn:E; [|subst x; discriminate].
-    subst x. exact (IH _ _ _ Hs1 (Hall k v s Hs2 E)).
-  - (* SItems *) inversion V as [| | | | |s0 l Hall|s0 j0 Hno| | |S0 j0 L]; subst;
-      [| destruct j; simpl in Hno; try discriminate; discriminate | simpl in L; discriminate].
+    subst x. eapply IH; [exact Hf|]. eauto.
+  - (* SItems *) inversion V; subst;
+      [| match goal with Hno : is_arr _ = false |- _ => destruct j; simpl in Hno; discriminate end
+       | match goal with L : leaf_check _ _ = true |- _ => simpl in L; discriminate end].
     destruct (all_o_false _ H) as [x [Hx Hf]]. apply in_map_iff in Hx. destruct Hx as [y [Hs1 Hs2]].
-    subst x. exact (IH _ _ _ Hs1 (Hall y Hs2)).
-  - (* SItemsTuple *) inversion V as [| | | | | | |ss0 l Hall|ss0 j0 Hno|S0 j0 L]; subst;
-      [| destruct j; simpl in Hno; try discriminate; discriminate | simpl in L; discriminate].
+    subst x. eapply IH; [exact Hf|]. auto.
+  - (* SItemsTuple *) inversion V; subst;
+      [| match goal with Hno : is_arr _ = false |- _ => destruct j; simpl in Hno; discriminate end
+       | match goal with L : leaf_check _ _ = true |- _ => simpl in L; discriminate end].
     destruct (all_o_false _ H) as [x [Hx Hf]]. apply in_map_iff in Hx. destruct Hx as [[s y] [Hs1 Hs2]].
-    subst x. exact (IH _ _ _ Hs1 (Hall s y Hs2)).
+    subst x. eapply IH; [exact Hf|]. auto.
 Qed.
 
-(** validity ignores "uniqueItems" once it is stripped; the stripped schema is weaker *)
 Lemma assoc_strip : forall name defs s, assoc name defs = Some s ->
                                         assoc name (strip_defs defs) = Some (strip_unique s).
 Proof.
